@@ -238,7 +238,7 @@ pub fn delta_strategy() -> impl Strategy<Value = f64> {
 }
 
 pub fn backlog_strategy() -> impl Strategy<Value = usize> {
-    prop_oneof![4 => Just(0usize), 4 => Just(1), 4 => Just(10), 4 => Just(1000), 4 => 0usize..300, 1 => prop_oneof![Just(usize::MAX), Just(usize::MAX - 1), Just(1usize << 40)]]
+    prop_oneof![4 => Just(0usize), 4 => Just(1), 4 => Just(10), 4 => Just(1000), 4 => 0usize..300, 1 => prop_oneof![Just(usize::MAX), Just(usize::MAX - 1), Just(1usize << 62)]]
 }
 
 fn strategy(tier: Tier) -> BoxedStrategy<Case> {
@@ -280,7 +280,7 @@ pub fn checks() -> Vec<Box<dyn DynCheck>> {
 }
 
 pub fn run(ctx: &Ctx) {
-    ctx.set_rule("generated: scale in K0..K3, delta in (1, 1000] (rarely 1e4, 1e5), backlog 0..1000 (rarely 2^40, usize::MAX - 1, usize::MAX: nothing merges before a read), n in 1..=2000 (50000 thorough), data = explicit (value, weight) lists / heavy ties over few levels / uniform, ranges 1e-3..1e12 (a third of the cases multiplied by 10^e, e in -30..=30), unit weights or weights over 1e-6..1e6; q on a 101-point grid + generated + neighbours of 0 and 1; x on a grid over [min-1, max+1] + data points + {min, max, +-inf}. Oracle: quantile non-decreasing, within [min,max], = min at 0, = max at 1; cdf non-decreasing, in [0,1], 0 below min, 1 from max upward; inverse consistency both ways (cdf(x+tol) >= q for x = quantile(q); quantile(cdf(x-tol)) <= x+tol); repeated reads bit-identical; empty digest NaN / 0; no panic (debug assertions on). tol = 16 ulps of the data range x total/smallest weight. Non-trivial: n_centroids >= 2, some centroid has weight > 1 (fusion happened) and the last centroid's mean is below max. Distinct = hash of the case.");
+    ctx.set_rule("generated: scale in K0..K3, delta in (1, 1000] (rarely 1e4, 1e5), backlog 0..1000 (rarely 2^62, usize::MAX - 1, usize::MAX: nothing merges before a read), n in 1..=2000 (50000 thorough), data = explicit (value, weight) lists / heavy ties over few levels / uniform, ranges 1e-3..1e12 (a third of the cases multiplied by 10^e, e in -30..=30), unit weights or weights over 1e-6..1e6; q on a 101-point grid + generated + neighbours of 0 and 1; x on a grid over [min-1, max+1] + data points + {min, max, +-inf}. Oracle: quantile non-decreasing, within [min,max], = min at 0, = max at 1; cdf non-decreasing, in [0,1], 0 below min, 1 from max upward; inverse consistency both ways (cdf(x+tol) >= q for x = quantile(q); quantile(cdf(x-tol)) <= x+tol); repeated reads bit-identical; empty digest NaN / 0; no panic (debug assertions on). tol = 16 ulps of the data range x total/smallest weight. Non-trivial: n_centroids >= 2, some centroid has weight > 1 (fusion happened) and the last centroid's mean is below max. Distinct = hash of the case.");
     ctx.assume("values with |x*w| finite and normal, as the constructor's documented domain (finite x, finite w >= 0)");
     ctx.run_regressions(&[&C15]);
     let t = ctx.tier;
